@@ -34,6 +34,9 @@ type Pipe struct {
 	SplitWrite bool          // a Write whose bytes were accepted returns in a second step
 	MaxRead    int           // > 0: a Read delivers at most this many bytes (keeps the library's read-ahead small)
 	CloseDelay time.Duration // virtual time Close takes to return (the transport is closed at once; e.g. a lingering close)
+	// StickyRead > 0: a transport whose Read does not return on Close: for that long after
+	// Close a Read stays blocked, unless late bytes from the peer arrive, which it delivers
+	StickyRead time.Duration
 	CloseErr   error         // what Close returns (the transport is closed all the same), e.g. a TLS close_notify failure
 
 	Writes []int // size of every chunk accepted (for atomicity diagnostics)
@@ -54,6 +57,12 @@ func (p *Pipe) Read(b []byte) (n int, err error) {
 	}
 	obj := p.RObj()
 	alt := vs.Point(&vs.Op{Desc: "pipe.Read", Ready: func() []int {
+		if p.Closed && p.StickyRead > 0 && vs.W.Now < p.ClosedAt+int64(p.StickyRead) {
+			if len(p.In) > 0 {
+				return []int{0}
+			}
+			return nil
+		}
 		if p.Closed || p.InErr != nil && len(p.In) == 0 || p.InEOF && len(p.In) == 0 {
 			return []int{0}
 		}
@@ -68,8 +77,9 @@ func (p *Pipe) Read(b []byte) (n int, err error) {
 		vs.RaceAcquire(obj)
 		defer vs.RaceRelease(obj)
 		p.Reads++
+		sticky := p.Closed && p.StickyRead > 0 && vs.W.Now < p.ClosedAt+int64(p.StickyRead) && len(p.In) > 0
 		switch {
-		case p.Closed:
+		case p.Closed && !sticky:
 			err = io.ErrClosedPipe
 		case len(p.In) > 0:
 			m := len(p.In)
@@ -155,6 +165,9 @@ func (p *Pipe) Close() error {
 		vs.RaceAcquire(p.WObj())
 		if !p.Closed {
 			p.ClosedAt = vs.W.Now
+			if p.StickyRead > 0 {
+				vs.W.AddTimer(int64(p.StickyRead), func() {}) // virtual time must be able to reach the end of the sticky period
+			}
 		}
 		p.Closed = true
 		p.NClose++
